@@ -149,6 +149,54 @@ pub fn check_all_maps<B: StrictOps>(g: &P, h: &P, mistyped: bool, loc: &mut Loca
 
 /// every sub-hypergraph of h (edge subset x node superset of its incidences), included with the
 /// sorted and the reversed numbering
+/// large hosts: a fixed menu of sub-hypergraphs instead of all of them (all hyperedges; none; the first half;
+/// the second half; every other hyperedge; all but the middle one; all but the first; all but the last), each
+/// with the required nodes only and with all nodes, in ascending and descending listing order
+pub fn check_selected_subgraphs<B: StrictOps>(h: &P, loc: &mut Local) {
+    let (n, m) = (h.nodes.len(), h.edges.len());
+    let menus: Vec<Vec<usize>> = vec![
+        (0..m).collect(),
+        vec![],
+        (0..m / 2).collect(),
+        (m / 2..m).collect(),
+        (0..m).step_by(2).collect(),
+        (0..m).filter(|&e| e != m / 2).collect(),
+        (1..m).collect(),
+        (0..m.saturating_sub(1)).collect(),
+    ];
+    for es in menus {
+        let mut req = vec![false; n];
+        for &e in &es {
+            for &v in h.edges[e].src.iter().chain(h.edges[e].tgt.iter()) {
+                req[v] = true;
+            }
+        }
+        for all_nodes in [false, true] {
+            let ns: Vec<usize> = (0..n).filter(|&v| all_nodes || req[v]).collect();
+            for rev in [false, true] {
+                let (mut ns2, mut es2) = (ns.clone(), es.clone());
+                if rev {
+                    ns2.reverse();
+                    es2.reverse();
+                }
+                let mut local = vec![usize::MAX; n];
+                for (k, &v) in ns2.iter().enumerate() {
+                    local[v] = k;
+                }
+                let g = P {
+                    nodes: ns2.iter().map(|&v| h.nodes[v]).collect(),
+                    edges: es2.iter().map(|&e| PEdge { label: h.edges[e].label, src: h.edges[e].src.iter().map(|&v| local[v]).collect(), tgt: h.edges[e].tgt.iter().map(|&v| local[v]).collect() }).collect(),
+                    s: vec![],
+                    t: vec![],
+                };
+                loc.more_cases(1);
+                check_arrow::<B>(&g, h, (&ns2, n), (&es2, m), loc);
+            }
+        }
+    }
+    loc.sample(|| json!({"H": h}));
+}
+
 pub fn check_subgraphs<B: StrictOps>(h: &P, loc: &mut Local) {
     let (n, m) = (h.nodes.len(), h.edges.len());
     for emask in 0..(1u32 << m) {
